@@ -10,6 +10,8 @@ CANDIDATES = ["e", "error_rate", "max_error_rate", "o", "max_errors", "min_overl
               "overlap", "O", "E", "min_o", "noindel", "indel", "any", "right", "leftmost", "req", "opt", "name", "times", "errors", "max_error"]
 
 
+OUTPUT = "ParserTables.lean"      # the generated file (harness/core.py: a failure of this translator concerns the properties that import it)
+
 def probe_parameters():
     """accepted parameter name -> canonical name, from the behaviour of parse_search_parameters"""
     import importlib
